@@ -5,8 +5,12 @@ P=$(readlink -f "$1"); ID=$2; TIER=${3:-quick}
 WT=/var/tmp/seedwt-$ID-$$
 git -C /repo worktree add -q "$WT" HEAD || exit 2
 git -C "$WT" apply "$P" || { echo "patch does not apply"; git -C /repo worktree remove --force "$WT"; exit 2; }
+BK=/var/tmp/seedbk-$ID-$$; mkdir -p $BK/Gen
+cp /verif/evidence/$ID.json $BK/ 2>/dev/null; cp /verif/coq/Gen/${ID}*.v $BK/Gen/ 2>/dev/null
 S2T_REPO="$WT" /verif/check "$ID" --tier "$TIER" > /var/tmp/seed-$ID-$$.log 2>&1
 RC=$?
+# the evidence file and the generated Coq files must describe /repo, not the seeded tree: restore them
+cp $BK/$ID.json /verif/evidence/ 2>/dev/null; cp $BK/Gen/*.v /verif/coq/Gen/ 2>/dev/null; rm -rf $BK
 grep -c "^VIOLATION" /var/tmp/seed-$ID-$$.log | sed "s/^/violations: /"
 grep "^VIOLATION\|what:" /var/tmp/seed-$ID-$$.log | head -6 | cut -c1-220
 tail -1 /var/tmp/seed-$ID-$$.log
